@@ -66,7 +66,7 @@ def run(tier, replay_file=None):
             break
     R.cov["ops_replayed"] = n_ops
     R.cov["events_handled_in_replays"] = handled_total
-    if handled_total < 50:
+    if not R.violations and (handled_total < 50):
         raise common.Machinery("too few handled events in the generated behaviours (vacuous)")
     ex = sets[1][0][0]
     R.sample([{k: v for k, v in h.items() if k not in ("q",)} for h in ex][:14])
